@@ -765,6 +765,12 @@ func (tree *MutableTree) SaveVersion() ([]byte, int64, error) {
 		}
 	}()
 
+	if initialVersionWasSet && version != tree.version+1 {
+		// A read-only query on the working tree (Hash, a proof) memoises node hashes computed for
+		// tree.version+1; this commit is numbered with the initial version instead.
+		tree.root.resetUnsavedHashes()
+	}
+
 	if tree.VersionExists(version) {
 		// If the version already exists, return an error as we're attempting to overwrite.
 		// However, the same hash means idempotent (i.e. no-op).
